@@ -540,7 +540,7 @@ fn main() {
     silence_panics();
     let args = parse_args();
     let thorough = args.tier == "thorough";
-    let mut n_valgrind = if thorough { 200usize } else { 0 };
+    let mut n_valgrind = if thorough { 200usize } else { 32 };
     let mut n_random = if thorough { 12000usize } else { 2000 };
     let mut ex_len = if thorough { 5usize } else { 3 };
     let mut i = 0;
@@ -575,6 +575,10 @@ fn main() {
         vec![Call::Initiate(0, 1), Call::Load(1, 1, 3), Call::Required(1), Call::ReadResult, Call::Load(1, 2, 4), Call::Required(1), Call::ReadResult, Call::Emit(1), Call::ReadResult, Call::Free(1), Call::Emit(1), Call::ReadResult],
         vec![Call::Initiate(0, 1), Call::Initiate(0, 1), Call::Load(2, 1, 2), Call::Emit(1), Call::ReadResult, Call::Emit(2), Call::ReadResult, Call::Free(2), Call::Free(2), Call::Required(2), Call::ReadResult, Call::Required(1), Call::ReadResult],
         vec![Call::Initiate(0, 10), Call::ReadResult, Call::Initiate(0, 0), Call::ReadResult],
+        // re-supplying a loaded file: with a source that does not parse (the old document stays), then with a good one
+        vec![Call::Initiate(0, 0), Call::Load(1, 0, 10), Call::ReadResult, Call::Required(1), Call::ReadResult, Call::Emit(1), Call::ReadResult],
+        vec![Call::Initiate(0, 1), Call::Load(1, 1, 2), Call::Load(1, 1, 11), Call::ReadResult, Call::Required(1), Call::ReadResult, Call::Emit(1), Call::ReadResult,
+             Call::Load(1, 5, 18), Call::Emit(1), Call::ReadResult, Call::Load(1, 4, 0), Call::Required(1), Call::ReadResult, Call::Emit(1), Call::ReadResult, Call::Free(1)],
     ];
     for h in corpus { hs.push(h); origin.push("corpus"); }
     // bounded-exhaustive
@@ -589,10 +593,13 @@ fn main() {
     let n_ex = ex.len();
     for h in ex { hs.push(h); origin.push("exhaustive"); }
     // random
-    for _ in 0..n_random {
+    // shortest first: the failing cases reported first are then the shortest failing ones
+    let mut rnd: Vec<Vec<Call>> = (0..n_random).map(|_| {
         let maxlen = if rng.chance(1, 10) { 80 } else { 40 };
-        hs.push(gen_random(&mut rng, files.len(), sources.len(), maxlen)); origin.push("random");
-    }
+        gen_random(&mut rng, files.len(), sources.len(), maxlen)
+    }).collect();
+    rnd.sort_by_key(|h| h.len());
+    for h in rnd { hs.push(h); origin.push("random"); }
 
     // 3. run them on the implementation
     let par = std::thread::available_parallelism().map(|n| n.get()).unwrap_or(4).min(16);
@@ -618,20 +625,44 @@ fn main() {
         } else { ERes::Miss }
     }).collect();
 
-    // 5. valgrind (thorough): a sample of histories, memcheck errors are direct property failures
+    // 5. valgrind memcheck on a sample of histories (quick: small, thorough: larger); memcheck errors are
+    //    direct property failures ("no call reads or frees memory it does not own").  When a batch reports
+    //    errors its histories are re-run one by one to name a concrete failing history.
     let mut direct_failures: Vec<Value> = vec![];
     let mut vg = json!({"histories": 0});
     if n_valgrind > 0 {
         let mut sample: Vec<Vec<Call>> = vec![];
         for (h, o) in hs.iter().zip(origin.iter()) { if *o == "corpus" { sample.push(h.clone()); } }
+        let exs: Vec<&Vec<Call>> = hs.iter().zip(origin.iter()).filter(|(_, o)| **o == "exhaustive").map(|(h, _)| h).collect();
+        let n_ex_vg = (n_valgrind / 2).min(exs.len());
+        for k in 0..n_ex_vg { sample.push(exs[k * exs.len() / n_ex_vg].clone()); }
         let rnd: Vec<&Vec<Call>> = hs.iter().zip(origin.iter()).filter(|(_, o)| **o == "random").map(|(h, _)| h).collect();
-        for k in 0..n_valgrind.min(rnd.len()) { sample.push(rnd[k * rnd.len() / n_valgrind.min(rnd.len())].clone()); }
+        let n_rnd_vg = n_valgrind.min(rnd.len());
+        for k in 0..n_rnd_vg { sample.push(rnd[k * rnd.len() / n_rnd_vg].clone()); }
         let r = run_parallel(&scratch, "vg", &files, &sources, &sample, true, par);
         vg = json!({"histories": sample.len(), "calls": sample.iter().map(|h| h.len()).sum::<usize>(),
                     "memcheck_errors": r.valgrind_errors, "tool": "valgrind memcheck, --leak-check=no"});
         if r.valgrind_errors > 0 {
-            direct_failures.push(json!({"what": "valgrind memcheck reports invalid memory accesses/frees while running loader call histories",
-                "classes": ["memcheck-error"], "log": r.valgrind_log.chars().take(4000).collect::<String>()}));
+            // attribute: shortest histories first, one valgrind process each, stop at the first hit
+            let mut order: Vec<usize> = (0..sample.len()).collect();
+            order.sort_by_key(|i| sample[*i].len());
+            let mut culprit: Option<(Vec<Call>, String)> = None;
+            for chunk in order.chunks(par.max(1)) {
+                let singles: Vec<(usize, BatchResult)> = std::thread::scope(|sc| {
+                    let hds: Vec<_> = chunk.iter().map(|i| { let i = *i; let (scratch, files, sources, sample) = (&scratch, &files, &sources, &sample);
+                        sc.spawn(move || (i, run_batch(scratch, &format!("vg1-{}", i), files, sources, &sample[i..i + 1], true))) }).collect();
+                    hds.into_iter().map(|h| h.join().unwrap()).collect()
+                });
+                for (i, b) in singles { if b.valgrind_errors > 0 && culprit.is_none() { culprit = Some((sample[i].clone(), b.valgrind_log)); } }
+                if culprit.is_some() { break; }
+            }
+            let mut f = json!({"what": "valgrind memcheck reports invalid memory accesses/frees while running loader call histories",
+                "classes": ["memcheck-error"], "log": r.valgrind_log.chars().take(3000).collect::<String>()});
+            if let Some((h, log)) = culprit {
+                f["history"] = Value::Array(h.iter().map(|c| descr_call(c, &files, &sources)).collect());
+                f["log"] = json!(log.chars().take(3000).collect::<String>());
+            }
+            direct_failures.push(f);
         }
     }
 
@@ -671,7 +702,7 @@ fn main() {
         header.push_str(&format!("Definition e{} : str * list (str * str) * eresult := (f{}, {}, {}).\n", k, key.0,
             coq_list(&key.1, |(f, s)| format!("(f{}, s{})", f, s)), coq_eres(e)));
     }
-    let mut cases = Cases::new(&header, "case", "agree", "holds", 400);
+    let mut cases = Cases::new(&header, "case", "agree", "holds", if thorough { 1500 } else { 400 });
     let mut distinct: HashSet<Vec<Call>> = HashSet::new();
     let mut nontrivial = 0usize;
     let mut dist: BTreeMap<String, u64> = BTreeMap::new();
